@@ -22,6 +22,7 @@ import (
 	"go/types"
 	"math/rand"
 	"os"
+	"regexp"
 	"strings"
 
 	"go/token"
@@ -128,6 +129,8 @@ type node struct {
 	subs []*node
 	n    int  // func: number of params
 	vari bool // func type: variadic
+	// field of a struct TYPE: 0 = `F<i> T`, 1 = embedded `T`, 2 = named exactly like its type `T T` (when T can be embedded)
+	fmode int
 	// leaf of a pattern whose qualified name was resolved by the caller: package path and type name
 	npath, nname string
 }
@@ -251,10 +254,34 @@ func genType(r *rand.Rand, depth int) *node {
 	default:
 		t := &node{k: "struct"}
 		for i, n := 0, r.Intn(5); i < n; i++ {
-			t.subs = append(t.subs, sub())
+			f := sub()
+			if r.Intn(3) == 0 {
+				f.fmode = 1 + r.Intn(2)
+			}
+			t.subs = append(t.subs, f)
 		}
 		return t
 	}
+}
+
+var embedRe = regexp.MustCompile(`^(?:\w+\.)?(\w+)(?:\[.*\])?$`)
+
+// embedName: the field name an embedded field of this type gets ("" when the type cannot be embedded: not a type name or a
+// pointer to a non-interface type name, a name standing for a pointer, unsafe.Pointer)
+func embedName(t *node) string {
+	iface := map[string]bool{"I": true, "error": true, "any": true, "Rdr": true, "Clo": true, "RdClo": true, "E": true}
+	leaf, ptr := t, false
+	if t.k == "ptr" {
+		leaf, ptr = t.subs[0], true
+	}
+	if leaf.k != "leaf" || leaf.s == "unsafe.Pointer" || leaf.s == "AP" {
+		return ""
+	}
+	m := embedRe.FindStringSubmatch(leaf.s)
+	if m == nil || ptr && iface[m[1]] {
+		return ""
+	}
+	return m[1]
 }
 
 func (t *node) clone() *node {
@@ -297,8 +324,19 @@ func (t *node) renderType() string {
 		return "func(" + strings.Join(ps, ", ") + ") (" + strings.Join(rs, ", ") + ")"
 	case "struct":
 		var fs []string
+		used := map[string]bool{}
 		for i, s := range t.subs {
-			fs = append(fs, fmt.Sprintf("F%d %s", i, s.renderType()))
+			x, name := s.renderType(), embedName(s)
+			switch {
+			case s.fmode == 1 && name != "" && !used[name]:
+				fs = append(fs, x)
+				used[name] = true
+			case s.fmode == 2 && name != "" && !used[name]:
+				fs = append(fs, name+" "+x)
+				used[name] = true
+			default:
+				fs = append(fs, fmt.Sprintf("F%d %s", i, x))
+			}
 		}
 		return "struct{ " + strings.Join(fs, "; ") + " }"
 	}
@@ -565,6 +603,13 @@ func mutateType(r *rand.Rand, t *node) *node {
 				}
 			}
 		case "struct":
+			if len(n.subs) > 0 && r.Intn(3) == 0 { // an embedded field becomes a field named like its type, a named field is embedded, ...
+				f := n.subs[r.Intn(len(n.subs))]
+				f.fmode = (f.fmode + 1 + r.Intn(2)) % 3
+				if embedName(f) != "" {
+					return c
+				}
+			}
 			if len(n.subs) > 0 && r.Intn(2) == 0 {
 				i := r.Intn(len(n.subs))
 				n.subs = append(n.subs[:i:i], n.subs[i+1:]...)
@@ -875,9 +920,9 @@ func (o *oracle) closedType(p *px) types.Type {
 	return nil
 }
 
-type out struct {
-	Mode     string   `json:"mode"`
-	Seed     int64    `json:"seed"`
+// matrix: every pattern against every type of one list
+type matrix struct {
+	Name     string   `json:"name,omitempty"`
 	Types    []string `json:"types"`
 	Terms    []string `json:"terms"`
 	Pats     []string `json:"pats"`
@@ -896,10 +941,17 @@ type out struct {
 	ParseErr []string `json:"parse_err"`
 	Panics   []string `json:"panics"`
 	Tried    int      `json:"assignments_tried"`
-	Unsup    string   `json:"unsupported"`
-	Engine   *engOut  `json:"engine,omitempty"`
-	Groups   *gsOut   `json:"groups,omitempty"`
-	Error    string   `json:"error,omitempty"`
+}
+
+type out struct {
+	Mode string `json:"mode"`
+	Seed int64  `json:"seed"`
+	matrix
+	BT     []*matrix `json:"bt,omitempty"` // backtracking blocks (backtrack.go)
+	Unsup  string    `json:"unsupported"`
+	Engine *engOut   `json:"engine,omitempty"`
+	Groups *gsOut    `json:"groups,omitempty"`
+	Error  string    `json:"error,omitempty"`
 }
 
 func bit(b bool) byte {
@@ -968,6 +1020,23 @@ var pairCat = []struct {
 	{"interface{ Rdr; Clo }", "interface{ Rdr }", true}, {"interface{ Clo }", "Clo", true}, {"interface{ RdClo }", "RdClo", true},
 	{"interface{ I }", "interface{ E }", true}, {"interface{ I; N() int }", "interface{ I; N() string }", true},
 	{"interface{ Rdr; Clo }", "interface{ Rdr; Close() }", true},
+	// an embedded field vs a field NAMED exactly like its type: same name, same type, same tag -- only embeddedness differs
+	// (type names of this package, qualified names, pointers, aliases, instantiations, predeclared names, interfaces)
+	{"struct{ N }", "struct{ N N }", true}, {"struct{ lib.T }", "struct{ T lib.T }", true}, {"struct{ *N }", "struct{ N *N }", true},
+	{"struct{ *lib.T }", "struct{ T *lib.T }", true}, {"struct{ A }", "struct{ A A }", true}, {"struct{ A }", "struct{ A int }", true},
+	{"struct{ ATa }", "struct{ ATa ta.Template }", true}, {"struct{ *ATa }", "struct{ ATa *ta.Template }", true},
+	{"struct{ gen.L[int] }", "struct{ L gen.L[int] }", true}, {"struct{ *gen.L[string] }", "struct{ L *gen.L[string] }", true},
+	{"struct{ gen.Pair[int, string] }", "struct{ Pair gen.Pair[int, string] }", true}, {"struct{ I }", "struct{ I I }", true},
+	{"struct{ error }", "struct{ error error }", true}, {"struct{ int }", "struct{ int int }", true}, {"struct{ Str }", "struct{ Str Str }", true},
+	{"struct{ N; B string }", "struct{ N N; B string }", true}, {"struct{ a int; Str }", "struct{ a int; Str Str }", true},
+	{"struct{ N; lib.T }", "struct{ N; T lib.T }", true}, {"struct{ N `k:\"v\"` }", "struct{ N N `k:\"v\"` }", true},
+	{"*struct{ N }", "*struct{ N N }", true}, {"[]struct{ lib.T }", "[]struct{ T lib.T }", false}, {"func(struct{ N })", "func(struct{ N N })", false},
+	// two embedded fields: the field name is the name the type is WRITTEN with, whatever it is identical to
+	{"struct{ A }", "struct{ int }", true}, {"struct{ ATa }", "struct{ ta.Template }", true}, {"struct{ byte }", "struct{ uint8 }", true},
+	{"struct{ any }", "struct{ E }", true}, {"struct{ *A }", "struct{ *int }", true}, {"struct{ ta.Template }", "struct{ tb.Template }", true},
+	{"struct{ lib.T }", "struct{ vlib.T }", true}, {"struct{ gen.L[int] }", "struct{ gen.L[string] }", true},
+	// ... and identical ones: an embedded field and its counterpart spelled through the same name
+	{"struct{ N }", "struct{ N `` }", true}, {"struct{ gen.L[A] }", "struct{ gen.L[int] }", true},
 }
 
 // patterns that bind both members of a pair to one variable
@@ -1009,6 +1078,7 @@ var fixedPats = []string{
 	"func($*_, *$x, $*_) $x", "func($*_, $x, $*_) *$x", "func($*_) $_", "func($*_)", "func($*_, $*_)", "func($_, $*_)", "func($*_, $_)",
 	"func([]int)", "func(int, []string)", "func($_)", "func($_, $*_, []string)", "func(int, $*_)",
 	"struct{$*_; int; string}", "struct{$*_; $x; $*_; $x}", "struct{$*_}", "struct{$x; $*_; $x}", "struct{*$x; $*_; *$x}",
+	"struct{pool.N}", "struct{*pool.N; $*_}", "struct{lib.T}", "struct{$*_; lib.T}", "struct{int}",
 	"map[$k][]$v", "map[$x][]$x", "[$n][$n]$t", "[$n][$m]$t", "[$_][$_]int", "[2][$n]int", "*$x", "**$x", "*int", "[]string", "func(int) string",
 	"map[string]int", "ta.Template", "tb.Template", "lib.T", "lib.U", "*lib.T", "[]lib.T", "interface{}", "interface{ $*_ }", "error",
 	"pool.N", "pool.Str", "pool.I", "unsafe.Pointer", "chan int", "<-chan int", "chan<- int", "chan $x", "func(func($*_, $x), $*_, $x)",
@@ -1023,6 +1093,8 @@ func main() {
 	depth := flag.Int("depth", 3, "max depth")
 	dump := flag.Bool("dumpsrc", false, "print generated source")
 	engN := flag.Int("engine", 40, "number of patterns for the engine-level section (0 = off)")
+	btN := flag.Int("bt", 2, "backtracking blocks: ways of mentioning the variable per choice (0 = section off)")
+	btRand := flag.Int("btrand", 60, "backtracking blocks: number of random compositions")
 	grpN := flag.Int("groups", 5, "number of random rules files of the group-sequence section (-1 = section off)")
 	flag.Parse()
 	o := out{Mode: os.Getenv("GODEBUG"), Seed: *seed}
@@ -1067,6 +1139,17 @@ func main() {
 		fmt.Fprintf(&sb, "\tV%03d %s\n", i, e)
 	}
 	sb.WriteString(")\n")
+	var btBlocks []btBlock
+	if *btN > 0 {
+		btBlocks = btBuild(rand.New(rand.NewSource(*seed+104729)), *btN, *btRand)
+	}
+	for bi, b := range btBlocks {
+		sb.WriteString("\nvar (\n")
+		for i, e := range b.types {
+			fmt.Fprintf(&sb, "\tB%d_%03d %s\n", bi, i, e)
+		}
+		sb.WriteString(")\n")
+	}
 	// engine-level section: probe functions per selected pattern (Type.Is, Type.Underlying().Is, list capture) over the
 	// hand-written types and the near-miss pair types
 	engPats := selectEnginePats(pats0(pats), *engN)
@@ -1116,16 +1199,14 @@ func main() {
 	}
 	ser := gtypes.NewSer(u)
 	pool := u.Pkgs["example.com/c10/pool"]
-	var tys []types.Type
-	for i := range typeExprs {
-		t := pool.Scope().Lookup(fmt.Sprintf("V%03d", i)).Type()
-		tys = append(tys, t)
-		o.Types = append(o.Types, typeExprs[i])
-		o.Terms = append(o.Terms, ser.Term(t))
-		o.Vendored = append(o.Vendored, strings.Contains(t.String(), "/vendor/") || strings.Contains(t.String(), "vendor/example.com"))
-		o.NestedV = append(o.NestedV, nestedVendor(t))
-		o.Instd = append(o.Instd, strings.Contains(t.String(), "gen.L[") || strings.Contains(t.String(), "gen.Pair["))
+	typesOf := func(prefix string, exprs []string) []types.Type {
+		var tys []types.Type
+		for i := range exprs {
+			tys = append(tys, pool.Scope().Lookup(fmt.Sprintf("%s%03d", prefix, i)).Type())
+		}
+		return tys
 	}
+	tys := typesOf("V", typeExprs)
 
 	orc := &oracle{pool: pool, pkgs: u.Pkgs, leafTy: map[string]types.Type{}}
 	for _, d := range append(append([]leafDef{}, patLeaves...), extraLeaves...) {
@@ -1148,7 +1229,37 @@ func main() {
 
 	ctx := &typematch.Context{Itab: typematch.NewImportsTab(itab)}
 	state := typematch.NewMatcherState()
-	for pi, pc := range pats {
+	fillMatrix(&o.matrix, ser, orc, ctx, state, pats, typeExprs, tys)
+	for bi, b := range btBlocks {
+		m := &matrix{Name: b.name}
+		var pcs []patCase
+		for _, s := range b.pats {
+			pcs = append(pcs, patCase{str: s})
+		}
+		fillMatrix(m, ser, orc, ctx, state, pcs, b.types, typesOf(fmt.Sprintf("B%d_", bi), b.types))
+		o.BT = append(o.BT, m)
+	}
+	o.Unsup = ser.Unsupported
+	if len(engPats) > 0 {
+		o.Engine = engineSection(u, orc, engPats, tys, engIdx)
+	}
+	if groups != nil {
+		gsRun(groups, u, orc)
+		o.Groups = groups
+	}
+	enc.Encode(o)
+}
+
+// fillMatrix matches every pattern against every type: implementation, brute-force oracle, types.Identical for closed patterns.
+func fillMatrix(o *matrix, ser *gtypes.Ser, orc *oracle, ctx *typematch.Context, state *typematch.MatcherState, pats []patCase, typeExprs []string, tys []types.Type) {
+	for i, t := range tys {
+		o.Types = append(o.Types, typeExprs[i])
+		o.Terms = append(o.Terms, ser.Term(t))
+		o.Vendored = append(o.Vendored, strings.Contains(t.String(), "/vendor/") || strings.Contains(t.String(), "vendor/example.com"))
+		o.NestedV = append(o.NestedV, nestedVendor(t))
+		o.Instd = append(o.Instd, strings.Contains(t.String(), "gen.L[") || strings.Contains(t.String(), "gen.Pair["))
+	}
+	for _, pc := range pats {
 		pat, err := typematch.Parse(ctx, pc.str)
 		if err != nil {
 			o.ParseErr = append(o.ParseErr, fmt.Sprintf("%s: %v", pc.str, err))
@@ -1156,7 +1267,7 @@ func main() {
 		}
 		tree := pat.VerifDump(ser.Term)
 		px := pc.px
-		if px == nil { // hand-written pattern: rebuild the oracle's tree from the dump is not independent; parse by hand below
+		if px == nil { // hand-written pattern: read by the harness' own parser (parse.go), independent of typematch.Parse
 			px = parseFixed(pc.str)
 			if px == nil {
 				o.ParseErr = append(o.ParseErr, "harness cannot read fixed pattern "+pc.str)
@@ -1192,24 +1303,13 @@ func main() {
 			orr[ti] = bit(res)
 			cl[ti] = '-'
 			if ct != nil {
-				// a vendored copy counts as the package itself: compare against the un-vendored counterpart too
 				cl[ti] = bit(types.Identical(ct, t))
 			}
 		}
 		o.Obs = append(o.Obs, string(obs))
 		o.Oracle = append(o.Oracle, string(orr))
 		o.Closed = append(o.Closed, string(cl))
-		_ = pi
 	}
-	o.Unsup = ser.Unsupported
-	if len(engPats) > 0 {
-		o.Engine = engineSection(u, orc, engPats, tys, engIdx)
-	}
-	if groups != nil {
-		gsRun(groups, u, orc)
-		o.Groups = groups
-	}
-	enc.Encode(o)
 }
 
 // ---- engine level: the same patterns through Where(m["x"].Type.Is(..)), Type.Underlying().Is(..) and a list capture
